@@ -23,6 +23,7 @@ MC_ShapesCore == {R1, R2, AL, SH, CR, BA}
 MC_ShapesMin  == {R1, R2, SH, BA}
 \* directed export (exhaustive, one GameServer): offerable or not
 MC_ShapesTiny == {R1, R1m, SH}
+MC_ShapesPair == {R1, SH}
 \* export: the whole alphabet
 MC_ShapesAll  == {R1, R1m, R2, R6, AL, RS, SH, UH, CR, SC, BA, BP}
 
